@@ -32,14 +32,26 @@ PAYLOAD_SRC = 90
 
 def plen(d):
     """length of a payload: real bytes, SymBytes or a FileSlice read from another file"""
-    return d.n if isinstance(d, FileSlice) else sym_len(d)
+    return d.n if isinstance(d, (FileSlice, Zeros)) else sym_len(d)
 
 
 def pbyte(d, i):
     """z3 term of the i-th byte of a payload"""
+    if isinstance(d, Zeros):
+        return ZERO8
     if isinstance(d, FileSlice):
         return d.f.byte(_z(d.off) + i)
     return C(_z(d.src), _z(d.start) + i)
+
+
+class Zeros:
+    """payload of n zero bytes (a file grown by truncate / a hole made explicit)"""
+
+    def __init__(self, n):
+        self.n = n
+
+    def __len__(self):
+        return self.n
 
 
 class FileC:
@@ -265,10 +277,15 @@ class Handle:
 
     def truncate(self, size=None):
         size = self.pos if size is None else size
-        if not (isinstance(size, int) and size == 0):
-            raise symex.Unsupported("truncate to a non-zero size is not modelled")
-        self.f.fid, self.f.base_len, self.f.log = 50 + UNIVERSE.index(self.key), 0, []
-        return 0
+        if isinstance(size, int) and size == 0:
+            self.f.fid, self.f.base_len, self.f.log = 50 + UNIVERSE.index(self.key), 0, []
+            return 0
+        cur = self.f.length()
+        if bool(SymBool(_z(size) >= _z(cur))):
+            # growing: the new part reads as zeros
+            self.f.log.append((cur, Zeros(SymInt(z3.simplify(_z(size) - _z(cur))))))
+            return size
+        raise symex.Unsupported("truncate to a smaller non-zero size is not modelled")
 
     def write(self, data):
         self.f.log.append((self.pos, data))
